@@ -18,8 +18,11 @@ Import-free, executable, generic over the coordinate type.
   `parts` entry points to).
 * The parallel fold of `par_rcb_split` uses `.with_min_len(4096)`: for fewer than 4096
   items rayon runs ONE sequential fold, which is what `scan` models (first index among
-  equal rounded distances wins).  The reduce operator is therefore never applied to two
-  non-identity operands.  Inputs of 4096 items or more are outside this model.
+  equal rounded distances wins).  Rayon's reduce folder then applies the reduce operator once,
+  with the identity `(0, 0, None, INFINITY)` as LEFT operand, which returns the fold's result
+  unchanged (`0 + c`, `0 + w`, `INFINITY < d` is false so the right operand's nearest point is
+  kept); it is never applied to two non-identity operands.  Inputs of 4096 items or more are
+  outside this model (the harness judges them with its oracles only).
 * Unsafe unchecked indexing (`get_unchecked`) and checked indexing/`swap` are modelled
   alike: an out-of-range index is the outcome `Res.oob`.  `loop`s run on explicit fuel;
   running out is `Res.fuel`.
